@@ -132,7 +132,7 @@ Section Rtf.
 
   Definition hexval (c : N) : option N :=
     match decval c with
-    | Some d => Some d
+    | Some d => if d <=? 9 then Some d else None     (* Unicode decimal values are 0..9 *)
     | None => if (97 <=? c) && (c <=? 102) then Some (c - 87)
               else if (65 <=? c) && (c <=? 70) then Some (c - 55) else None
     end.
